@@ -20,7 +20,8 @@ type Seg struct {
 	// Style says how the segment is written; it does not change what the
 	// segment means. Quoted segments: "'" single quotes, "\"" double quotes,
 	// "\\" a backslash in front of every character, "$" a double-quoted
-	// variable. Empty unquoted segments: "@" an unquoted $@ and "\"@" a
+	// variable, "\"-" the default word of an unset parameter inside double
+// quotes. Empty unquoted segments: "@" an unquoted $@ and "\"@" a
 	// double-quoted "$@" with no positional parameters (both contribute
 	// nothing, not even a quoted empty part). "" leaves the choice to the check.
 	Style string `json:"style,omitempty"`
